@@ -96,7 +96,12 @@ pub fn gen_redex(r: &mut Rng) -> (String, &'static str) {
                 _ => term_over(r, vs, a.ends_with("$i") && b.ends_with("$i")),
             };
             let e1 = eq(r, a, &t);
-            let e2 = if r.chance(1, 4) { e1.clone() } else { eq(r, b, &t) };
+            let mut e2 = if r.chance(1, 4) { e1.clone() } else { eq(r, b, &t) };
+            if r.chance(1, 4) {
+                // one of the equalities is the head of a comparison chain: it is more than an
+                // equality and must not be dropped as one
+                e2 = format!("{b} = {t} {} {}", ["<", "!=", ">=", "<="][r.upto(4)], ["W", "K$i", "0", "Z"][r.upto(4)]);
+            }
             let split = |v: &'static str| -> (&'static str, &'static str) { match v.find('$') { Some(i) => (&v[..i], &v[i..]), None => (v, "") } };
             let loc = [split(a), split(b)];
             let f = if r.chance(1, 3) { format!("p({a})") } else { filler(r, &loc, 1) };
@@ -206,6 +211,19 @@ pub fn gen_redex(r: &mut Rng) -> (String, &'static str) {
             let q = ["exists", "forall", "not"][r.upto(3)];
             let v = if q == "not" { "" } else { ["X", "Z", "I$i", "X$i Y"][r.upto(4)] };
             (format!("{q} {v} ({a})"), "wrapped")
+        }
+        14 if r.chance(1, 2) => {
+            // an implication between a formula and its own negation (or itself)
+            let f = if r.chance(1, 2) { ["p(X)", "q(X)", "s", "p(1)"][r.upto(4)].to_string() } else { filler(r, vs, 1) };
+            let s = match r.below(6) {
+                0 => format!("not ({f}) -> ({f})"),
+                1 => format!("({f}) -> not ({f})"),
+                2 => format!("({f}) <- not ({f})"),
+                3 => format!("not not ({f}) -> ({f})"),
+                4 => format!("({f}) <-> not ({f})"),
+                _ => format!("forall X (not ({f}) -> ({f}))"),
+            };
+            (s, "self-implication")
         }
         14 => {
             // the shapes val_t(Z) produces
